@@ -82,7 +82,14 @@ class Freedom:
             return out
         for _ in range(self.rng.choice([1, 1, 2])):
             cls = self.rng.choice([0, 1, 2, 2, 3])
-            num = self.rng.choice([4, 5, 12, 20, 30, 31, 99, 300]) if cls != 0 else self.rng.choice([4, 5, 12, 16, 2, 1])
+            if cls == 0:
+                num = self.rng.choice([4, 5, 12, 16, 2, 1, 10, 3, 6])
+            elif cls != 2 and excl and self.rng.random() < 0.5:
+                # the numbers that mean something at this position as [context n], in another class: still unrecognised
+                num = self.rng.choice(list(excl))
+                self.used["trailing-extra-known-number-other-class"] += 1
+            else:
+                num = self.rng.choice([0, 1, 2, 3, 4, 5, 7, 10, 11, 12, 20, 30, 31, 99, 300])
             while cls == 2 and num in excl:
                 num += 1
             n = Node(cls, self.rng.random() < 0.3, num, bytes(self.rng.randrange(256) for _ in range(self.rng.choice([0, 1, 3]))))
